@@ -177,7 +177,7 @@ class NotClosedTest(Exception):
     pass
 
 
-def traces(cfg, env0, call_key, funcs=None, max_states=20000):
+def traces(cfg, env0, call_key, funcs=None, max_states=20000, returns=False):
     """Run a function from its entry under the closed environment `env0` and collect, for every way it can end, the
     sequence of calls of interest made on the way: `call_key(call)` names a call (or returns None to ignore it); its
     arguments are evaluated in the environment of the moment (text of the expression when not closed).  Returns the
@@ -208,7 +208,7 @@ def traces(cfg, env0, call_key, funcs=None, max_states=20000):
                             v = ('expr', ast.unparse(a_))
                         vals.append(v)
                     tr = tr + ((k, tuple(vals)),)
-        if nd.kind == 'return':
+        if returns and nd.kind == 'return':
             try:
                 rv = A.ev(nd.ast.value, env, funcs) if nd.ast.value is not None else None
                 hash(rv)
